@@ -626,7 +626,7 @@ func c17O6(p *Prog, r *Report) {
 			if encl == "cli.Run" && name == "os.Exit" {
 				continue // examined below
 			}
-			if cs.Encl != nil && exitHelpers[cs.Encl.Obj.Origin()] && name == "os.Exit" {
+			if cs.Encl != nil && isExitHelper(cs.Encl.Obj) && name == "os.Exit" {
 				continue // a verified error-exit helper of cli.Run (prints its argument to stderr, exits non-zero)
 			}
 			r.Bad(encl+"/"+name, p.PosStr(cs.Call.Pos()), "process exit outside cli.Run: exit status / file state no longer follow the single decision point")
@@ -680,7 +680,7 @@ func c17O6(p *Prog, r *Report) {
 						if !ok || ssaCalleeObj(c) == nil {
 							return false
 						}
-						if exitHelpers[ssaCalleeObj(c).Origin()] {
+						if isExitHelper(ssaCalleeObj(c)) {
 							return true
 						}
 						if !isFunc(ssaCalleeObj(c), "os", "", "Exit") {
@@ -708,7 +708,7 @@ func c17O6(p *Prog, r *Report) {
 						if !ok || ssaCalleeObj(c) == nil {
 							return false
 						}
-						if exitHelpers[ssaCalleeObj(c).Origin()] {
+						if isExitHelper(ssaCalleeObj(c)) {
 							// the helper prints its argument to stderr: it must be this error
 							for _, a := range c.Common().Args {
 								if flowsFrom(a, al) {
